@@ -2,10 +2,13 @@
 
 Decided by the Lean theorems of lean-c13/XrlC13/Props/C13.lean about the hand model lean-c13/XrlC13/Hand/CrystalNum.lean of
 the numeric half of src/crystal_diffraction.c (over the reals, for every crystal record, Miller triple, energy, flag triple,
-and every behaviour of the elemental functions FF_Rayl/Fi/Fii, which are parameters of the model).
+and every behaviour of the elemental functions FF_Rayl/Fi/Fii, which are parameters of the model), and tied to the C source
+statically: on every run tools/c13_c2lean.py translates the nine numeric functions of the working tree's
+src/crystal_diffraction.c (clang JSON AST) into lean-c13/XrlC13/Gen/Crystal.lean, and lean-c13/XrlC13/Props/C13g.lean proves
+`Gen.f = Hand.f repaired` for every input (NULL crystal, every slot state) — a semantic change of the C breaks a proof.
 
-Flow (DESIGN 2.7): build the library + harness/c13drv.c from the working tree (ASan+UBSan); `lake build` the model driver
-and the theorems; audit; probe which of the proposed repairs C13-1..5 the tree contains and run the model with the same
+Flow (DESIGN 2.7): build the library + harness/c13drv.c from the working tree (ASan+UBSan); regenerate the translation;
+`lake build` the model driver, the theorems and the refinement theorems; audit; probe which of the proposed repairs C13-1..5 the tree contains and run the model with the same
 switches; correspondence (compiled model vs library on the 38 built-in crystals + seeded generated cells, incl. degenerate /
 near-degenerate cells, NULL, illegal Zatom, huge Miller indices, all flag combinations and invalid flags; the elemental
 factors the model needs are read from the library in the same run); violation search (Spec/Crystal.lean in Float + the
@@ -19,8 +22,12 @@ from vlib.core import hx, unhx, log
 ID = 'C13'
 LEAN_DIR = os.path.join(VERIF, 'lean-c13')
 MODULE = 'XrlC13.Props.C13'
+MODULE_GEN = 'XrlC13.Props.C13g'
 NAMESPACE = 'Xrl.C13'
 PROPS_FILE = os.path.join(LEAN_DIR, 'XrlC13', 'Props', 'C13.lean')
+PROPS_GEN = os.path.join(LEAN_DIR, 'XrlC13', 'Props', 'C13g.lean')
+GEN_DIR = os.path.join(LEAN_DIR, 'XrlC13', 'Gen')
+TRANSLATOR = os.path.join(VERIF, 'tools', 'c13_c2lean.py')
 HARNESS = os.path.join(VERIF, 'harness', 'c13drv.c')
 CORPUS = os.path.join(VERIF, 'corpus')
 
@@ -41,7 +48,20 @@ REQUIRED_THEOREMS = [
     'fh_invalid_flags', 'fh_invalid_flags_no_atoms', 'fh_no_abort',
     'fh_no_ub_full_fails_null', 'fh_no_ub_full_fails_zatom', 'fh_no_ub_partial', 'fh_no_ub_fixed', 'fh_null_fixed', 'fh_is_partial_222',
     'c_abs_spec', 'c_mul_spec',
+    'volume_meets_spec', 'bragg_meets_spec', 'q_sin_over_lambda', 'q_meets_spec', 'fh_meets_spec',
 ]
+# the static tie: generated code (XrlC13/Gen/Crystal.lean, from the working tree) = hand model, and the property theorems restated for it
+REQUIRED_GEN = [
+    'gen_volume_refines', 'gen_dspacing_refines', 'gen_bragg_refines', 'gen_q_refines', 'gen_atomic_factors_refines',
+    'gen_atomic_factors_refines_cases', 'gen_fh_partial_refines', 'gen_fh_refines', 'gen_c_abs_refines', 'gen_c_mul_refines',
+    'gen_volume_meets_spec', 'gen_dspacing_inversion', 'gen_dspacing_scale', 'gen_dspacing_meets_spec', 'gen_bragg_meets_spec',
+    'gen_q_meets_spec', 'gen_fh_meets_spec', 'gen_fh_additive_flags', 'gen_fh_friedel', 'gen_fh_000', 'P0_sane', 'cube_gen_d', 'cube_gen_hQ',
+]
+# which refinement theorem speaks about which C function (a function the translator rejects breaks these)
+REFINES = {'Crystal_UnitCellVolume': 'gen_volume_refines', 'Crystal_dSpacing': 'gen_dspacing_refines', 'Bragg_angle': 'gen_bragg_refines',
+           'Q_scattering_amplitude': 'gen_q_refines', 'Atomic_Factors': 'gen_atomic_factors_refines',
+           'Crystal_F_H_StructureFactor_Partial': 'gen_fh_partial_refines', 'Crystal_F_H_StructureFactor': 'gen_fh_refines',
+           'c_abs': 'gen_c_abs_refines', 'c_mul': 'gen_c_mul_refines'}
 
 FLAGS12 = [(a, b, c) for a in (0, 1, 2) for b in (0, 2) for c in (0, 2)]
 BADFLAGS = [(3, 2, 2), (-1, 0, 0), (2, 1, 2), (2, 2, 1), (2, 3, 0), (0, 0, -2), (7, 7, 7), (2147483647, 2, 2)]
@@ -57,12 +77,23 @@ class Cr:
         self.id = cid; self.name = name; self.cell = [float(x) for x in cell]; self.vol = float(vol)
         self.atoms = [(int(a[0]), float(a[1]), float(a[2]), float(a[3]), float(a[4])) for a in atoms]
         self.builtin = builtin; self.family = family
+        self.via = None; self.path = None         # 'add': through Crystal_AddCrystal + Crystal_GetCrystal; 'file': through Crystal_ReadFile
     def line(self):
         t = ['crystal', str(self.id), self.name] + [hx(v) for v in self.cell] + [hx(self.vol), str(len(self.atoms))]
         for a in self.atoms: t += [str(a[0])] + [hx(v) for v in a[1:]]
         return ' '.join(t)
     def cline(self):
-        return 'builtin %d %s' % (self.id, self.name) if self.builtin else self.line()
+        if self.builtin: return 'builtin %d %s' % (self.id, self.name)
+        if self.via == 'add': return 'viaadd' + self.line()[len('crystal'):]
+        if self.via == 'file': return 'viafile %s %d %s' % (self.path, self.id, self.name)
+        return self.line()
+    def file_text(self):
+        """the cell in the syntax of data/Crystals.dat (shortest round-trip decimals); None when a line would be too long for the
+        reader's 100-character line buffer"""
+        ls = ['#S 1 %s' % self.name, '#UCELL ' + ' '.join(repr(v) for v in self.cell), '#L  AtomicNumber  Fraction  X  Y  Z']
+        ls += ['%d %s' % (a[0], ' '.join(repr(v) for v in a[1:])) for a in self.atoms] + ['#EOF']
+        if any(len(l) > 90 for l in ls) or len(self.name) > 20 or not self.atoms: return None
+        return '\n'.join(ls) + '\n'
     def detc(self):
         ca, cb, cg = (math.cos(x * DEGRAD) for x in self.cell[3:6])
         return 1 - ca * ca - cb * cb - cg * cg + 2 * ca * cb * cg
@@ -90,6 +121,40 @@ def formula_volume(cell):
     ca, cb, cg = (math.cos(x * DEGRAD) for x in cell[3:6])
     d = 1 - ca * ca - cb * cb - cg * cg + 2 * ca * cb * cg
     return a * b * c * math.sqrt(d) if d >= 0 else float('nan')
+
+def _f32_bits(x): return struct.unpack('<I', struct.pack('<f', x))[0]
+def _f32_from_bits(b): return struct.unpack('<f', struct.pack('<I', b))[0]
+
+def dec_to_f32(s):
+    """the value of the C constant `<decimal s>f`: the float nearest to the decimal text (ties to even), as a double"""
+    from fractions import Fraction
+    x = Fraction(s)
+    b = _f32_bits(float(s))
+    cands = [_f32_from_bits(bb) for bb in (b - 1, b, b + 1) if 0 <= (bb & 0x7fffffff) < 0x7f800000]
+    return min(cands, key=lambda f: (abs(Fraction(f) - x), _f32_bits(f) & 1))
+
+def as_printed(v):
+    """what the library holds for a number that prdata writes into xrayglob_inline.c as `%ff` (src/pr_data.c:1134,1144): the value printed
+    with six decimals, read back by the compiler as a float constant"""
+    return dec_to_f32('%f' % v)
+
+def parse_crystals_dat(path):
+    """independent reading of data/Crystals.dat: name -> (cell[6] as doubles, atoms)"""
+    out = {}; cur = None; inatoms = False
+    for l in open(path, errors='replace'):
+        if l.startswith('#S'):
+            t = l.split()
+            if len(t) >= 3: cur = dict(cell=None, atoms=[]); out[t[2][:20]] = cur; inatoms = False
+        elif cur is not None and l.startswith('#UCELL'):
+            cur['cell'] = [float(x) for x in l.split()[1:7]]
+        elif cur is not None and l.startswith('#L'):
+            inatoms = True
+        elif cur is not None and inatoms:
+            if l.startswith('#'): inatoms = False
+            else:
+                t = l.split()
+                if len(t) >= 5: cur['atoms'].append((int(t[0]),) + tuple(float(x) for x in t[1:5]))
+    return out
 
 ZPOOL = [1, 3, 6, 8, 13, 14, 26, 29, 31, 32, 33, 47, 55, 74, 79, 82, 92]
 
@@ -158,8 +223,8 @@ def aux_of(main):
     """the oracle request that accompanies a call line (elemental factors / the library's own d, theta, q)"""
     t = main.split(' ')
     op = t[0]
-    if op == 'bragg': return ' '.join(['aux', t[1], t[2], t[3], t[4], t[5], hx(1.0)])
-    if op == 'q': return ' '.join(['aux'] + t[1:7])
+    if op == 'bragg': return ' '.join(['auxd', t[1], t[2], t[3], t[4], t[5], hx(1.0)])
+    if op == 'q': return ' '.join(['auxd'] + t[1:7])
     if op in ('fh', 'fh2'): return ' '.join(['aux', t[1], t[2], t[3], t[4], t[5], t[7]])
     if op in ('fhp', 'fhp2'): return ' '.join(['aux', t[1], t[2], t[3], t[4], t[5], t[7]])
     if op == 'af': return ' '.join(['auxaf', t[1], t[2], t[3]])
@@ -199,6 +264,7 @@ def is_float(v): return isinstance(v, float)
 def finite(v): return is_float(v) and math.isfinite(v)
 
 REL = 1e-12
+VOL_TOL = 2e-7        # stored vs recomputed volume of a built-in crystal: both are floats of six-decimal texts (worst real deviation 1.28e-7)
 
 def close(a, b, rel=REL, floor=0.0):
     if a == b: return True
@@ -243,6 +309,7 @@ class Run:
         self.sc = self.ctx.sc
         self.stderr_lines = 0; self.died = 0
         self.variant = '00000'
+        self.dlib = {}
 
     def cenv(self):
         return dict(os.environ, ASAN_OPTIONS='detect_leaks=0:abort_on_error=0:halt_on_error=1', UBSAN_OPTIONS='print_stacktrace=0')
@@ -264,14 +331,28 @@ class Run:
         for x in out[-1].split(' ')[1:]:
             f = x.split(':'); self.zero_pts.append((f[0], int(f[1]), unhx(f[2])))
 
-    def lake(self, targets):
-        t = time.time()
+    def regen_and_lake(self, target_groups):
+        """under the project lock: translate src/crystal_diffraction.c of the working tree into XrlC13/Gen/Crystal.lean (the file is
+        rewritten only when its text changes), then `lake build` each group of targets.  -> (unsupported lines, gen meta, [(ok, log)])"""
+        out = []
         with open(os.path.join(LEAN_DIR, '.verif.lock'), 'w') as lf:
             fcntl.flock(lf, fcntl.LOCK_EX)
-            p = subprocess.run(['lake', 'build'] + targets, cwd=LEAN_DIR, capture_output=True, text=True)
-            fcntl.flock(lf, fcntl.LOCK_UN)
-        self.ctx.timings['lake_build'] = round(self.ctx.timings.get('lake_build', 0) + time.time() - t, 2)
-        return p.returncode == 0, p.stdout + p.stderr
+            try:
+                t = time.time()
+                p = subprocess.run([sys.executable, TRANSLATOR, REPO, GEN_DIR, self.sc.path('b'), self.sc.path()], capture_output=True, text=True)
+                self.ctx.timings['translate'] = round(time.time() - t, 2)
+                if p.returncode not in (0, 3): raise BuildError('tools/c13_c2lean.py crashed: ' + p.stderr[-2000:])
+                unsupported = [l for l in p.stdout.splitlines() if l.startswith('UNSUPPORTED')]
+                try: meta = json.load(open(self.sc.path('gen_meta.json')))
+                except (OSError, ValueError): meta = None
+                t = time.time()
+                for targets in target_groups:
+                    q = subprocess.run(['lake', 'build'] + targets, cwd=LEAN_DIR, capture_output=True, text=True)
+                    out.append((q.returncode == 0, q.stdout + q.stderr))
+                self.ctx.timings['lake_build'] = round(time.time() - t, 2)
+            finally:
+                fcntl.flock(lf, fcntl.LOCK_UN)
+        return unsupported, meta, out
 
     def model_exe(self): return os.path.join(LEAN_DIR, '.lake', 'build', 'bin', 'c13-model')
 
@@ -409,6 +490,9 @@ def gen_cases(R, crystals):
     # B. d-spacing: the whole box [-6,6]^3 for the built-in crystals (exhaustive), samples for generated cells -----------
     for c in builtin:
         for h in box: out.append(('dsp', L('dsp', c.id, h[0], h[1], h[2], 'E')))
+        # multiples that leave the box: d(7h) = d(h)/7, d(-7h) = d(h)/7 (the relations look the lines up by text)
+        for h in r.sample(nz, 60 if th else 16):
+            for n in (7, -7): out.append(('dsp-7h', L('dsp', c.id, n * h[0], n * h[1], n * h[2], 'E')))
     for c in gen:
         for h in r.sample(nz, 120 if th else 14):
             out.append(('dsp', L('dsp', c.id, h[0], h[1], h[2], 'E')))
@@ -416,6 +500,9 @@ def gen_cases(R, crystals):
             n = r.choice([2, 3, -2, 5, -7])
             out.append(('dsp', L('dsp', c.id, n * h[0], n * h[1], n * h[2], 'E')))
         out.append(('dsp', L('dsp', c.id, 0, 0, 0, 'E')))
+    for c in gen:
+        if c.via:
+            for h in hkl_box(2): out.append(('dsp-via', L('dsp', c.id, h[0], h[1], h[2], 'E')))
     for h in r.sample(nz, 20): out.append(('dsp', L('dsp', 'N', h[0], h[1], h[2], r.choice('EN'))))
     out.append(('dsp', 'dsp N 0 0 0 E'))
     # huge Miller indices: the int products 2*i*j
@@ -423,7 +510,17 @@ def gen_cases(R, crystals):
         for h in [(32767, 32767, 32767), (-32767, 32767, -32767), (32768, 32768, 1), (40000, 40000, 1), (1, 46341, 46341), (46341, 1, -46341),
                   (2147483647, 1, 0), (1073741824, 1, 0), (-2147483648, 0, 1), (65536, 16384, 0), (65536, -16384, 0), (0, 2147483647, 2147483647), (2147483647, 0, 0)]:
             out.append(('dsp-huge', L('dsp', c.id, h[0], h[1], h[2], 'E')))
-    # C/D. Bragg angle and Q: energies across 0.1..200 keV, at and around the cut-off, non-positive ---------
+    # C/D. Bragg angle and Q.  Built-in crystals: the WHOLE box at 4 energies (8.047 keV, 17.48 keV and two seeded ones, log-uniform
+    #      in 0.1..200 keV), Q with a relative angle from a fixed list + a seeded one --------------------------------------
+    rels = [1.0, 0.5, 0.0, 1.7, -1.0, 100.0, 0.9, 1.1]
+    for c in builtin:
+        Es = [8.047, 17.48, 10 ** r.uniform(-1, math.log10(200)), 10 ** r.uniform(-1, math.log10(200))]
+        rl = rels + [r.uniform(0, 2)]
+        for E in Es:
+            for n_, h in enumerate(box):
+                out.append(('bragg-box', L('bragg', c.id, E, h[0], h[1], h[2], 'E')))
+                out.append(('q-box', L('q', c.id, E, h[0], h[1], h[2], rl[(n_ + h[0]) % len(rl)], 'E')))
+    #      sampled: energies across 0.1..200 keV, at and around the cut-off, non-positive ---------
     cs = crystals if th else (builtin + gen)
     for c in cs:
         hs = r.sample(nz, 30 if th else 6) + [(1, 1, 1), (0, 0, 0)]
@@ -441,6 +538,19 @@ def gen_cases(R, crystals):
                 out.append(('q-cutoff', L('q', c.id, Eb * (1 - 3e-7), h[0], h[1], h[2], 1.0, 'E')))
             rel = r.choice([1.0, 1.0, 0.5, 0.0, 1.7, -1.0, 100.0, r.uniform(0, 2)])
             out.append(('q', L('q', c.id, r.choice(energies(r, 2)), h[0], h[1], h[2], rel, r.choice('EEN'))))
+    # cut-off with the spacing the LIBRARY reports (first pass `R.dlib` over chosen (crystal, hkl) pairs): the backscattering energy to
+    # the last bit, +-1e-12 / +-1e-10 relative and the three neighbouring doubles on both sides — a clamp window of any width shows
+    for (cid_, h), dl_ in R.dlib.items():
+        if dl_ and math.isfinite(dl_) and dl_ > 0:
+            Eb = KEV2ANGST / (2 * dl_)
+            Es_ = [Eb, Eb * (1 - 1e-12), Eb * (1 + 1e-12), Eb * (1 - 1e-10), Eb * (1 + 1e-10)]
+            x = Eb
+            for _ in range(3): x = math.nextafter(x, 0.0); Es_.append(x)
+            x = Eb
+            for _ in range(3): x = math.nextafter(x, math.inf); Es_.append(x)
+            for E in Es_:
+                out.append(('bragg-cutoff-ulp', L('bragg', cid_, E, h[0], h[1], h[2], 'E')))
+            out.append(('q-cutoff-ulp', L('q', cid_, math.nextafter(Eb, 0.0), h[0], h[1], h[2], 1.0, 'E')))
     out += [('bragg', L('bragg', 'N', 8.0, 1, 1, 1, 'E')), ('bragg', L('bragg', 'N', -8.0, 1, 1, 1, 'E')), ('q', L('q', 'N', 8.0, 0, 0, 0, 1.0, 'E')),
             ('q', L('q', 'N', 8.0, 1, 0, 0, 1.0, 'E')), ('q', L('q', 'N', 0.0, 0, 0, 0, 1.0, 'N'))]
     # E. Atomic_Factors: every Z in [-2,122], all pointer masks, Debye factors incl. <= 0, energies incl. exact zeros of Fii --
@@ -455,23 +565,39 @@ def gen_cases(R, crystals):
             out.append(('af-zero', L('af', Z, E, 0.3, 0.9, mask, 'E')))
     # F. structure factors: bundles (crystal, hkl, E, debye, rel) x all 12 flag triples + invalid flags + Friedel partner
     #    + the 000 reflection + the wrappers ---------------------------------------------------------------
-    def bundle(c, h, E, deb, rel, full=True):
-        fl = FLAGS12 if full else r.sample(FLAGS12, 3) + [(2, 2, 2), (2, 0, 0), (0, 2, 0), (0, 0, 2), (2, 2, 0)]
+    def bundle(c, h, E, deb, rel, full=True, allbad=False):
+        fl = FLAGS12 if full else r.sample(FLAGS12, 3) + [(2, 2, 2), (2, 0, 0), (0, 2, 0), (0, 0, 2), (2, 2, 0), (1, 2, 2), (1, 0, 0)]
         for f in dict.fromkeys(fl): out.append(('fhp', L('fhp', c.id, E, h[0], h[1], h[2], deb, rel, f[0], f[1], f[2], 'E')))
         for f in [(2, 2, 0), (1, 0, 0)]: out.append(('fhp-friedel', L('fhp', c.id, E, -h[0], -h[1], -h[2], deb, rel, f[0], f[1], f[2], 'E')))
         out.append(('fh', L('fh', c.id, E, h[0], h[1], h[2], deb, rel, 'E')))
-        f = r.choice(BADFLAGS); out.append(('fhp-badflag', L('fhp', c.id, E, h[0], h[1], h[2], deb, rel, f[0], f[1], f[2], r.choice('EEN'))))
+        for f in (BADFLAGS if allbad else [r.choice(BADFLAGS)]):
+            out.append(('fhp-badflag', L('fhp', c.id, E, h[0], h[1], h[2], deb, rel, f[0], f[1], f[2], r.choice('EEN'))))
     for c in builtin:
-        for _ in range(40 if th else 3):
-            bundle(c, r.choice(nz), r.choice([8.047, 17.48, 10 ** r.uniform(0.3, 2.2)]), r.choice([1.0, 0.9, 0.7]), r.choice([1.0, 1.0, 0.9, 1.1]), full=(len(c.atoms) <= 30 or th))
+        for n_ in range(40 if th else 3):
+            # energies over the whole range of the property, 0.1..200 keV (below ~2 keV most reflections do not exist: the call must fail)
+            bundle(c, r.choice(nz), r.choice([8.047, 17.48, 10 ** r.uniform(-1, math.log10(200)), 10 ** r.uniform(-1, math.log10(200))]),
+                   r.choice([1.0, 0.9, 0.7]), r.choice([1.0, 1.0, 0.9, 1.1]), full=(len(c.atoms) <= 30 or th), allbad=(n_ == 0))
+        # one bundle that certainly reflects at each end of the energy range: the longest spacing of the cell at 200 keV and at the lowest
+        # energy of 0.1..3 keV at which it still reflects
+        hl = max(((1, 0, 0), (0, 1, 0), (0, 0, 1), (1, 1, 0), (1, 1, 1)), key=lambda h: c.dsp(*h) or 0.0)
+        dmax = c.dsp(*hl)
+        if dmax:
+            bundle(c, hl, r.uniform(160.0, 200.0), 0.9, 1.0, full=False)
+            bundle(c, hl, max(0.1, min(3.0, 1.02 * KEV2ANGST / (2 * dmax) * r.uniform(1.0, 1.5))), 0.9, 1.0, full=False)
         out.append(('fhp-000', L('fhp', c.id, r.choice([8.047, 25.0]), 0, 0, 0, 0.9, r.choice([1.0, 0.3]), 2, 0, 0, 'E')))
         out.append(('fhp-000', L('fhp', c.id, 12.0, 0, 0, 0, 0.8, 1.0, 2, 2, 2, 'E')))
         out.append(('fhp-lowE', L('fhp', c.id, r.choice([0.1, 0.3, 0.7]), 1, 1, 1, 1.0, 1.0, 2, 2, 2, 'E')))
     small = [c for c in gen if len(c.atoms) <= 12]
     for c in small:
-        for _ in range(12 if th else 2):
-            bundle(c, r.choice(nz), 10 ** r.uniform(-1, 2.3), r.choice([1.0, 0.9, 0.5, 0.0, -0.5]), r.choice([1.0, 0.0, 0.5, 2.5, -1.0]), full=th)
+        for n_ in range(12 if th else 2):
+            bundle(c, r.choice(nz), 10 ** r.uniform(-1, 2.3), r.choice([1.0, 0.9, 0.5, 0.0, -0.5]), r.choice([1.0, 0.0, 0.5, 2.5, -1.0]), full=(th or bool(c.via)),
+                   allbad=(n_ == 0))
         out.append(('fhp-000', L('fhp', c.id, 8.0, 0, 0, 0, 1.0, 1.0, 2, 0, 0, r.choice('EN'))))
+        for deb in (0.9, r.choice([0.37, 0.5, 0.75, 1.6])):          # the (0,0,0) reduction carries the Debye factor
+            out.append(('fhp-000', L('fhp', c.id, r.choice([8.0, 17.48, 40.0]), 0, 0, 0, deb, r.choice([1.0, 0.3]), 2, 0, 0, 'E')))
+        if c.via:
+            for h in ((1, 1, 1), (2, 0, -1)):
+                for E in (8.047, 30.0): out.append(('bragg-via', L('bragg', c.id, E, h[0], h[1], h[2], 'E')))
     for c in r.sample(crystals, 12):
         h = r.choice(nz); E = 10 ** r.uniform(0, 2); deb = r.choice([1.0, 0.9]); rel = 1.0
         out.append(('fh2', L('fh2', c.id, E, h[0], h[1], h[2], deb, rel, 'E')))
@@ -613,7 +739,18 @@ def search(R, crystals, mains, c_out, aux_out, spec_out, valid):
             if p is not None:
                 cnt('inversion')
                 if not close(a['vals'][0], p['vals'][0], 1e-15): out.append(Finding(m, None, 'd(-h) = %r differs from d(h) = %r' % (p['vals'][0], a['vals'][0])))
-            for n in (2, 3, -2, 5, -7):
+            # the library's d against the reciprocal-metric formula evaluated in Python from the cell alone (no stored volume): built-in
+            # crystals within the accuracy of their stored volume (written with six decimals as a float), user cells to rounding
+            cr_ = cmap.get(int(t[1]))
+            if cr_ is not None and h != [0, 0, 0] and finite(a['vals'][0]) and not a['slot'].startswith('F'):
+                dref = cr_.dsp(*h)
+                if dref is not None and (cr_.builtin or cr_.family in ('triclinic-valid', 'theorem-witness') or cr_.via):
+                    cnt('dsp-formula')
+                    ftol = (VOL_TOL if cr_.builtin else 1e-12) / max(min(1.0, vc.get('detC', 1.0)), 1e-300)
+                    if ftol <= 1e-6:
+                        if not close(a['vals'][0], dref, ftol): out.append(Finding(m, None, 'd = %r differs from the reciprocal-metric formula %r (relative %.3g, tolerance %.3g)' % (a['vals'][0], dref, abs(a['vals'][0] - dref) / dref, ftol)))
+                        else: dev('dsp-formula-builtin' if cr_.builtin else 'dsp-formula-user', abs(a['vals'][0] - dref) / dref)
+            for n in (2, 3, -2, 5, -7, 7):
                 p = get(' '.join(['dsp', t[1]] + [str(n * x) for x in h] + ['E']))
                 if p is not None and finite(a['vals'][0]) and h != [0, 0, 0]:
                     cnt('scaling')
@@ -626,14 +763,14 @@ def search(R, crystals, mains, c_out, aux_out, spec_out, valid):
                 lhs = 2 * pa['d'] * math.sin(a['vals'][0]); rhs = KEV2ANGST / unhx(t[2])
                 if not close(lhs, rhs, 1e-11): out.append(Finding(m, None, "Bragg's law: 2 d sin(theta) = %r, hc/E = %r" % (lhs, rhs)))
                 else: dev('bragg-law', abs(lhs - rhs) / rhs)
-        if op == 'fhp' and t[1] != 'N' and t[8:11] == ['2', '2', '2'] and t[11] == 'E':
-            parts = [get(' '.join(t[:8] + list(f) + ['E'])) for f in (('2', '0', '0'), ('0', '2', '0'), ('0', '0', '2'))]
+        if op == 'fhp' and t[1] != 'N' and t[8:11] in (['2', '2', '2'], ['1', '2', '2']) and t[11] == 'E':
+            parts = [get(' '.join(t[:8] + list(f) + ['E'])) for f in ((t[8], '0', '0'), ('0', '2', '0'), ('0', '0', '2'))]
             a = get(m)
             if a and all(parts) and not a['slot'].startswith('F') and not any(p['slot'].startswith('F') for p in parts) and all(finite(x) for x in a['vals']):
-                cnt('additivity')
+                cnt('additivity' if t[8] == '2' else 'additivity-1')
                 sc = fscale(cmap.get(int(t[1])), res[m][1], unhx(t[6])) + 1e-300
                 d = abs(a['vals'][0] - sum(p['vals'][0] for p in parts)) + abs(a['vals'][1] - sum(p['vals'][1] for p in parts))
-                if d > 1e-12 * sc: out.append(Finding(m, None, 'F(2,2,2) = %r differs from F(2,0,0)+F(0,2,0)+F(0,0,2) by %g' % (a['vals'], d)))
+                if d > 1e-12 * sc: out.append(Finding(m, None, 'F(%s,2,2) = %r differs from F(%s,0,0)+F(0,2,0)+F(0,0,2) by %g' % (t[8], a['vals'], t[8], d)))
                 else: dev('additivity', d / sc)
         if op == 'fhp' and t[1] != 'N' and t[10] == '0' and t[11] == 'E':
             h = [int(x) for x in t[3:6]]
@@ -686,8 +823,8 @@ def lean_sources():
     out.append(os.path.join(LEAN_DIR, 'Driver.lean'))
     return sorted(out)
 
-def print_axioms(run, names):
-    src = 'import %s\n' % MODULE + ''.join('#print axioms %s\n' % n for n in names)
+def print_axioms(run, names, modules=(MODULE,)):
+    src = ''.join('import %s\n' % m for m in modules) + ''.join('#print axioms %s\n' % n for n in names)
     path = run.sc.path('Audit.lean'); open(path, 'w').write(src)
     p = subprocess.run(['lake', 'env', 'lean', path], cwd=LEAN_DIR, capture_output=True, text=True)
     res = {}; txt = p.stdout + p.stderr
@@ -698,14 +835,14 @@ def print_axioms(run, names):
 
 def failing_theorems(build_log):
     names = []
-    for m in re.finditer(r'(XrlC13/[\w/]+\.lean):(\d+):\d+', build_log):
+    for m in re.finditer(r'error: (XrlC13/[\w/]+\.lean):(\d+):\d+', build_log):
         rel, ln = m.group(1), int(m.group(2))
         try: src = open(os.path.join(LEAN_DIR, rel)).read().splitlines()
         except OSError: continue
         for i in range(min(ln, len(src)) - 1, -1, -1):
-            mm = re.match(r'\s*(?:private\s+)?theorem\s+([\w\.\']+)', src[i])
+            mm = re.match(r'\s*(?:private\s+)?(?:theorem|def)\s+([\w\.\']+)', src[i])
             if mm:
-                n = mm.group(1) if rel.endswith('Props/C13.lean') else '%s:%s' % (rel[len('XrlC13/'):-5], mm.group(1))
+                n = mm.group(1) if re.search(r'Props/C13g?\.lean$', rel) else '%s:%s' % (rel[len('XrlC13/'):-5], mm.group(1))
                 if n not in names: names.append(n)
                 break
     return names
@@ -737,8 +874,9 @@ def read_lines_file(path, first_id):
         l = l.strip()
         if not l or l.startswith('#'): continue
         t = l.split(' ')
-        if t[0] == 'crystal':
+        if t[0] in ('crystal', 'viaadd', 'viafilecell'):
             c = parse_crystal_line(l, False, 'replay'); idmap[str(c.id)] = str(first_id + len(crs)); c.id = first_id + len(crs); crs.append(c)
+            if t[0] != 'crystal': c.via = 'add' if t[0] == 'viaadd' else 'file'      # the public ingestion route the violation was seen on
         elif t[0] == 'builtin':
             idmap[t[1]] = 'B:' + t[2]
         else:
@@ -759,15 +897,57 @@ class C13:
             body = 'check %s could not build the working tree or its own harness:\n%s\n' % (ID, str(e)[:4000])
             path = core.write_replay(R.ctx, body, 'txt')
             print('VIOLATION property=%s replay=%s no-failing-input-found' % (ID, path))
-            core.write_evidence(R.ctx, 'proof', dict(obligations=len(REQUIRED_THEOREMS), discharged=0, checker_cmd='cd lean-c13 && lake build ' + MODULE,
+            core.write_evidence(R.ctx, 'proof', dict(obligations=len(REQUIRED_THEOREMS) + len(REQUIRED_GEN), discharged=0, checker_cmd='cd lean-c13 && lake build %s %s' % (MODULE, MODULE_GEN),
                                 trusted_base=TRUSTED, explanation='build failed: ' + str(e)[:500], evaluations=1, distinct_nontrivial=0), 1)
             return 1
         finally:
             R.ctx.close()
 
+    def via_crystals(self, R, crystals):
+        """user-supplied crystals on the PUBLIC ingestion routes: copies of valid generated cells that reach the numeric functions
+        through Crystal_AddCrystal + Crystal_GetCrystal (the caller's struct carries a stale volume) and through a file written in the
+        syntax of data/Crystals.dat + Crystal_ReadFile + Crystal_GetCrystal.  The model gets the same cell with the volume the library
+        recomputes for the plain struct (first pass)."""
+        src = [c for c in crystals if c.family == 'triclinic-valid' and 1 <= len(c.atoms) <= 8][:(16 if R.thorough else 4)]
+        if not src: return []
+        vols = [parse(a) for a in R.run_c([L('vol', c.id, 'E') for c in src], crystals)]
+        out = []; nid = len(crystals)
+        for c, pv in zip(src, vols):
+            if pv['kind'] != 'ok' or pv['slot'] != 'E' or not finite(pv['vals'][0]): continue
+            for route in ('add', 'file'):
+                v = Cr(nid, '%s_%s' % (c.name, route), c.cell, pv['vals'][0], c.atoms, False, 'via-AddCrystal' if route == 'add' else 'via-ReadFile')
+                v.via = route
+                if route == 'file':
+                    txt = v.file_text()
+                    if txt is None: continue
+                    v.path = R.sc.path('cell_%d.dat' % nid)
+                    with open(v.path, 'w') as f: f.write(txt)
+                out.append(v); nid += 1
+        return out
+
+    def first_pass(self, R, crystals):
+        """the spacing the library reports for chosen (crystal, hkl) pairs: places the cut-off probes to the last bit"""
+        r = R.rng; nz = [h for h in hkl_box() if h != (0, 0, 0)]
+        pairs = []
+        for c in crystals:
+            if c.builtin or c.family in ('triclinic-valid', 'theorem-witness'):
+                if not c.builtin and not R.thorough and len(pairs) > 400: continue
+                for h in [(1, 1, 1), (2, 2, 0)] + r.sample(nz, 6 if R.thorough else 3): pairs.append((c.id, h))
+        ans = R.run_c([L('dsp', cid, h[0], h[1], h[2], 'N') for cid, h in pairs], crystals)
+        R.dlib = {}
+        for (cid, h), a in zip(pairs, ans):
+            pa = parse(a)
+            if pa['kind'] == 'ok' and finite(pa['vals'][0]) and pa['vals'][0] > 0: R.dlib[(cid, h)] = pa['vals'][0]
+
     def resolve_file(self, R, path, crystals):
         """append the crystals of a corpus/replay file, return its call lines with the ids of this run"""
         crs, calls, idmap = read_lines_file(path, len(crystals))
+        for c in crs:
+            if c.via == 'file':
+                txt = c.file_text()
+                if txt is None: c.via = None; continue
+                c.path = R.sc.path('cell_%d.dat' % c.id)
+                with open(c.path, 'w') as f: f.write(txt)
         crystals += crs
         byname = {c.name: c.id for c in crystals if c.builtin}
         out = []
@@ -785,38 +965,54 @@ class C13:
         ctx = R.ctx
         rep = dict(proof_broken=[], tie_broken=[], problems=[])
         known = load_known()
-        # ---- 1. C artefacts, 2. lake --------------------------------------------------------------------
+        # ---- 1. C artefacts, 2. translation of the working tree's crystal_diffraction.c + lake ------------------------
         R.build_c()
-        ok_exe, log_exe = R.lake(['c13-model'])
+        unsupported, gen_meta, builds = R.regen_and_lake([['c13-model'], [MODULE], [MODULE_GEN]])
+        (ok_exe, log_exe), (ok_props, log_props), (ok_gen, log_gen) = builds
         if not ok_exe: raise BuildError('model driver does not build: ' + _errs(log_exe))
-        ok_props, log_props = R.lake([MODULE])
         if not ok_props:
             rep['proof_broken'] = failing_theorems(log_props) or ['(module %s does not build)' % MODULE]
             rep['proof_log'] = _errs(log_props, 10)
+        for u in unsupported:
+            rep['tie_broken'].append('the translator rejects the working tree: ' + u)
+        if not ok_gen:
+            names = failing_theorems(log_gen)
+            for u in unsupported:
+                m_ = re.match(r'UNSUPPORTED \S+ (\w+):', u)
+                if m_ and REFINES.get(m_.group(1)) and REFINES[m_.group(1)] not in names: names.insert(0, REFINES[m_.group(1)])
+            rep['proof_broken'] += [n for n in (names or ['(module %s does not build)' % MODULE_GEN]) if n not in rep['proof_broken']]
+            rep['proof_log'] = (rep.get('proof_log', '') + '\n' + _errs(log_gen, 10)).strip()
         # ---- 3. audit ----------------------------------------------------------------------------------------
         bad = core.audit_sources(lean_sources())
         if bad: rep['problems'].append('forbidden construct in Lean sources: ' + '; '.join(bad[:5]))
-        theorems = core.theorems_of(PROPS_FILE, NAMESPACE) if os.path.exists(PROPS_FILE) else []
+        th_props = core.theorems_of(PROPS_FILE, NAMESPACE) if os.path.exists(PROPS_FILE) else []
+        th_gen = core.theorems_of(PROPS_GEN, NAMESPACE) if os.path.exists(PROPS_GEN) else []
+        theorems = th_props + th_gen
         for th in REQUIRED_THEOREMS:
-            if NAMESPACE + '.' + th not in theorems: rep['problems'].append('property theorem %s missing from %s' % (th, MODULE))
+            if NAMESPACE + '.' + th not in th_props: rep['problems'].append('property theorem %s missing from %s' % (th, MODULE))
+        for th in REQUIRED_GEN:
+            if NAMESPACE + '.' + th not in th_gen: rep['problems'].append('refinement theorem %s missing from %s' % (th, MODULE_GEN))
         axioms = {}
-        if ok_props and theorems:
+        audited = (th_props if ok_props else []) + (th_gen if ok_props and ok_gen else [])
+        if audited:
             t = time.time()
-            axioms, txt = print_axioms(R, theorems)
+            axioms, txt = print_axioms(R, audited, [MODULE] + ([MODULE_GEN] if ok_gen else []))
             ctx.tick('axiom_audit', t)
-            for th in theorems:
+            for th in audited:
                 if th not in axioms: rep['problems'].append('axiom audit: no report for %s' % th)
                 elif set(axioms[th]) - core.ALLOWED_AXIOMS: rep['problems'].append('axiom audit: %s depends on %s' % (th, sorted(set(axioms[th]) - core.ALLOWED_AXIOMS)))
-        if os.path.exists(PROPS_FILE):
-            src = core.strip_comments(open(PROPS_FILE).read())
-            n_ex = len(re.findall(r'^\s*example\b', src, flags=re.M))
-            if n_ex < 15: rep['problems'].append('non-vacuity examples missing from %s (%d found)' % (MODULE, n_ex))
+        for f_, need in ((PROPS_FILE, 20), (PROPS_GEN, 3)):
+            if os.path.exists(f_):
+                src = core.strip_comments(open(f_).read())
+                n_ex = len(re.findall(r'^\s*example\b', src, flags=re.M))
+                if n_ex < need: rep['problems'].append('non-vacuity examples missing from %s (%d found)' % (os.path.basename(f_), n_ex))
         if R.thorough and ok_props:
             t = time.time()
-            p = subprocess.run(['lake', 'env', 'leanchecker', MODULE], cwd=LEAN_DIR, capture_output=True, text=True)
+            for mod in [MODULE] + ([MODULE_GEN] if ok_gen else []):
+                p = subprocess.run(['lake', 'env', 'leanchecker', mod], cwd=LEAN_DIR, capture_output=True, text=True)
+                if p.returncode != 0: rep['problems'].append('leanchecker rejected %s: %s' % (mod, (p.stdout + p.stderr)[-400:]))
+                else: ctx.notes.append('leanchecker re-checked %s' % mod)
             ctx.tick('leanchecker', t)
-            if p.returncode != 0: rep['problems'].append('leanchecker rejected %s: %s' % (MODULE, (p.stdout + p.stderr)[-400:]))
-            else: ctx.notes.append('leanchecker re-checked %s' % MODULE)
         variant = R.probe_variant()
         if variant != '00000':
             ctx.notes.append('working tree contains proposed repairs (braggFix, zFix, nullFix, zeroFix, ovfFix) = %s; the model runs with the same switches' % variant)
@@ -830,6 +1026,8 @@ class C13:
             for f in corpus_files():
                 ls = self.resolve_file(R, f, crystals); mains += ls; fam += ['corpus'] * len(ls)
             crystals += gen_crystals(R.rng, len(crystals), 400 if R.thorough else 14, R.thorough)
+            crystals += self.via_crystals(R, crystals)
+            self.first_pass(R, crystals)
             for f, l in gen_cases(R, crystals): fam.append(f); mains.append(l)
         # duplicates carry no information (and the relations look lines up by text)
         seen = set(); mm = []; ff = []
@@ -854,22 +1052,58 @@ class C13:
                 len(mism), len(mains), mism[0][0], mism[0][1][:300], mism[0][2][:300]))
         if R.stderr_lines:
             rep['tie_broken'].append('library wrote %d diagnostic line(s) to stderr (error stored over an error?): %s' % (R.stderr_lines, getattr(R, 'stderr_sample', '')))
-        # ---- stored vs recomputed volume of the built-in crystals (numeric fact, reported; > 1e-6 is flagged) --------
+        pos = {l: i for i, l in enumerate(mains)}
+        # ---- stored vs recomputed volume of the built-in crystals.  (1) EXACT: every number of a built-in record (cell, stored volume,
+        #      atoms) must be what prdata prints for the record of data/Crystals.dat — `%ff`: six decimals, read back as a float constant —
+        #      where the volume is the formula evaluated on the cell of the data file (read here, independently of the library's reader);
+        #      (2) the library's recomputation from the (rounded) cell it holds agrees with the stored value to VOL_TOL = 2e-7 --------
         vol_dev = []
         for c in crystals:
             if c.builtin:
-                pc = parse(c_out[mains.index(L('vol', c.id, 'E'))]) if L('vol', c.id, 'E') in seen else None
+                pc = parse(c_out[pos[L('vol', c.id, 'E')]]) if L('vol', c.id, 'E') in pos else None
                 if pc and pc['kind'] == 'ok' and finite(pc['vals'][0]) and c.vol:
                     vol_dev.append((abs(pc['vals'][0] - c.vol) / abs(c.vol), c.name, c.vol, pc['vals'][0]))
         vol_dev.sort(reverse=True)
+        exact_bad = []; exact_n = 0
+        if not replay:
+            try: dat = parse_crystals_dat(os.path.join(REPO, 'data', 'Crystals.dat'))
+            except OSError as e_: dat = None; rep['problems'].append('data/Crystals.dat cannot be read: %s' % e_)
+            for c in (crystals if dat is not None else []):
+                if not c.builtin: continue
+                rec = dat.get(c.name)
+                if rec is None or rec['cell'] is None:
+                    exact_bad.append((c, 'built-in crystal %s has no record in data/Crystals.dat' % c.name)); continue
+                exact_n += 1
+                want_cell = [as_printed(v) for v in rec['cell']]
+                want_vol = as_printed(formula_volume(rec['cell']))
+                want_atoms = [(a[0],) + tuple(as_printed(v) for v in a[1:]) for a in rec['atoms']]
+                if c.cell != want_cell:
+                    exact_bad.append((c, 'cell of built-in crystal %s = %r, the record of data/Crystals.dat as prdata prints it is %r' % (c.name, c.cell, want_cell)))
+                elif c.vol != want_vol:
+                    exact_bad.append((c, 'stored volume of built-in crystal %s = %r (%s); the volume of its cell in data/Crystals.dat, %r, as prdata prints it (six decimals, float) is %r (%s)' % (
+                        c.name, c.vol, hx(c.vol), formula_volume(rec['cell']), want_vol, hx(want_vol))))
+                elif c.atoms != want_atoms:
+                    exact_bad.append((c, 'atoms of built-in crystal %s differ from the record of data/Crystals.dat as prdata prints it (first difference: %r)' % (
+                        c.name, next(((x, y) for x, y in zip(c.atoms, want_atoms) if x != y), (len(c.atoms), len(want_atoms))))))
+        # ---- user-supplied crystals on the public routes (Crystal_AddCrystal / Crystal_ReadFile, then Crystal_GetCrystal): the struct handed
+        #      out stores exactly the volume the library computes for that cell
+        via_bad = []; vias = [c for c in crystals if c.via]
+        if vias:
+            for c, a in zip(vias, R.run_c(['stored2 %d' % c.id for c in vias], crystals)):
+                pa_ = parse(a)
+                if pa_['kind'] != 'ok' or pa_['slot'] != 'E' or len(pa_['vals']) != 2: via_bad.append((c, 'no answer: ' + a[:200])); continue
+                st_, rc_ = pa_['vals']
+                if not (st_ == rc_ == c.vol):
+                    via_bad.append((c, 'user-supplied crystal %s through %s: the struct handed out stores volume %r, Crystal_UnitCellVolume of it is %r, of the original cell %r' % (
+                        c.name, 'Crystal_AddCrystal + Crystal_GetCrystal' if c.via == 'add' else 'Crystal_ReadFile + Crystal_GetCrystal', st_, rc_, c.vol)))
         # ---- user-supplied crystals: what a collection hands out after Crystal_AddCrystal carries the RECOMPUTED volume, whatever
         #      (stale) value the caller's struct held
         stored_bad = []
-        ucs = [c for c in crystals if not c.builtin and valid.get(c.id, {}).get('cell') and valid.get(c.id, {}).get('nondeg') and L('vol', c.id, 'E') in seen][:400]
+        ucs = [c for c in crystals if not c.builtin and not c.via and valid.get(c.id, {}).get('cell') and valid.get(c.id, {}).get('nondeg') and L('vol', c.id, 'E') in seen][:400]
         if ucs:
             so_ = R.run_c(['stored %d' % c.id for c in ucs], crystals)
             for c, a in zip(ucs, so_):
-                pa_ = parse(a); pv = parse(c_out[mains.index(L('vol', c.id, 'E'))])
+                pa_ = parse(a); pv = parse(c_out[pos[L('vol', c.id, 'E')]])
                 if pa_['kind'] != 'ok' or pv['kind'] != 'ok' or pv['slot'].startswith('F'): continue
                 if pa_['slot'] == 'N' or not close(pa_['vals'][0], pv['vals'][0], 1e-12):
                     stored_bad.append((c, pa_, pv))
@@ -894,8 +1128,10 @@ class C13:
             found.append(Finding('vol %d E' % c.id, None, 'user-supplied crystal %s: after Crystal_AddCrystal the collection hands out stored volume %r, the recomputed volume is %r (the caller\'s struct carried a stale value)' % (
                 c.name, pa_['vals'][0] if pa_['slot'] != 'N' else None, pv['vals'][0])))
         for dv, name, stored, rec in vol_dev:
-            if dv > 1e-6: found.append(Finding('vol %d E' % [c.id for c in crystals if c.name == name][0], None,
-                                               'stored volume of built-in crystal %s = %r, recomputed %r (relative deviation %.3g > 1e-6)' % (name, stored, rec, dv)))
+            if dv > VOL_TOL: found.append(Finding('vol %d E' % [c.id for c in crystals if c.name == name][0], None,
+                                               'stored volume of built-in crystal %s = %r, recomputed %r (relative deviation %.3g > %g)' % (name, stored, rec, dv, VOL_TOL)))
+        for c, what in exact_bad[:20]: found.append(Finding('vol %d E' % c.id, None, what))
+        for c, what in via_bad[:20]: found.append(Finding('vol %d E' % c.id, None, what))
         # the theorems' validity predicate (executed by the compiled model) must hold for every shipped crystal
         for c in crystals:
             if c.builtin and not (valid[c.id]['cell'] and valid[c.id]['atoms']):
@@ -924,7 +1160,11 @@ class C13:
             for l in lines:
                 t = l.split(' ')
                 if t[0] in ('vol', 'dsp', 'bragg', 'q', 'fh', 'fh2', 'fhp', 'fhp2') and t[1] != 'N' and int(t[1]) not in ids: ids.append(int(t[1]))
-            return ''.join((('builtin %d %s\n' % (i, cmap[i].name)) if cmap[i].builtin else cmap[i].line() + '\n') for i in ids)
+            def one(c):
+                if c.builtin: return 'builtin %d %s\n' % (c.id, c.name)
+                if c.via: return ('viaadd' if c.via == 'add' else 'viafilecell') + c.line()[len('crystal'):] + '\n'
+                return c.line() + '\n'
+            return ''.join(one(cmap[i]) for i in ids)
         if new:
             new.sort(key=lambda f: (f.key is not None, len(f.line)))
             w = new[0] if replay else self.shrink(R, new[0], crystals, valid, knownkeys)
@@ -949,15 +1189,17 @@ class C13:
             print('VIOLATION property=%s replay=%s no-failing-input-found' % (ID, path))
             exit_code = 1
         # ---- evidence ----------------------------------------------------------------------------------------------
-        n_dis = 0 if not ok_props else sum(1 for th in theorems if th in axioms and not (set(axioms[th]) - core.ALLOWED_AXIOMS))
+        n_dis = sum(1 for th in audited if th in axioms and not (set(axioms[th]) - core.ALLOWED_AXIOMS))
         dist = self.distribution(crystals, mains, fam, c_out, m_out, valid)
         nontriv = set()
         for l, c in zip(mains, c_out):
             pc = parse(c)
             if pc['kind'] == 'ok' and not pc['slot'].startswith('F') and any(is_float(x) and x != 0 and math.isfinite(x) for x in pc['vals']): nontriv.add(l)
         smp = sorted(R.rng.sample(range(len(mains)), min(10, len(mains))))
-        cov = dict(obligations=max(len(theorems), len(REQUIRED_THEOREMS)), discharged=n_dis,
-                   checker_cmd='cd lean-c13 && lake build %s  (then `#print axioms` on each theorem; thorough: leanchecker)' % MODULE,
+        cov = dict(obligations=max(len(theorems), len(REQUIRED_THEOREMS) + len(REQUIRED_GEN)), discharged=n_dis,
+                   translation=dict(translated=sorted((gen_meta or {}).get('translated', {})), unsupported=unsupported, refinement_theorems={f: REFINES[f] for f in sorted(REFINES)},
+                                    functions={f: dict(line=d.get('line'), sha=d.get('sha')) for f, d in sorted((gen_meta or {}).get('translated', {}).items())}),
+                   checker_cmd='python3 tools/c13_c2lean.py $REPO lean-c13/XrlC13/Gen && cd lean-c13 && lake build %s %s  (then `#print axioms` on each theorem; thorough: leanchecker)' % (MODULE, MODULE_GEN),
                    trusted_base=TRUSTED,
                    theorems=[dict(name=th, axioms=axioms.get(th)) for th in theorems],
                    traces_validated_against_impl=len(mains), correspondence_mismatches=len(mism),
@@ -974,7 +1216,7 @@ class C13:
                    samples=[dict(line=mains[i], family=fam[i], impl=c_out[i][:200], model=m_out[i][:200], spec=spec_out[i]) for i in smp],
                    max_rel_dev_model_vs_impl=stats.get('max_rel_dev', 0.0),
                    stored_vs_recomputed_volume=dict(worst_relative_deviation=vol_dev[0][0] if vol_dev else None, worst_crystal=vol_dev[0][1] if vol_dev else None,
-                                                    flag_above=1e-6, crystals=len(vol_dev), top5=[dict(name=n, deviation=d, stored=s, recomputed=rc) for d, n, s, rc in vol_dev[:5]]),
+                                                    flag_above=VOL_TOL, exact_records_checked=exact_n, exact_records_differing=len(exact_bad), via_routes_checked=len(vias), via_routes_differing=len(via_bad), crystals=len(vol_dev), top5=[dict(name=n, deviation=d, stored=s, recomputed=rc) for d, n, s, rc in vol_dev[:5]]),
                    validity_of_builtin_crystals=dict(valid_cell=sum(1 for c in crystals if c.builtin and valid[c.id]['cell']), valid_atoms=sum(1 for c in crystals if c.builtin and valid[c.id]['atoms']), of=len(R.builtins)),
                    c_region_coverage_of_functions_under_study=cov_c, distribution=dist, model_variant=dict(zip(['braggFix', 'zFix', 'nullFix', 'zeroFix', 'ovfFix'], [x == '1' for x in variant])),
                    probe=[dict(line=l, impl=a[:160]) for l, a in R.probe_lines],
@@ -1091,7 +1333,9 @@ class AllLines:
 TRUSTED = [
     'Lean 4.33 kernel (lake build; thorough tier: leanchecker re-check of XrlC13.Props.C13)',
     'axioms allowed in property theorems: propext, Classical.choice, Quot.sound (audited by #print axioms on every run)',
-    'hand model lean-c13/XrlC13/Hand/CrystalNum.lean of the numeric half of src/crystal_diffraction.c: trusted as far as the correspondence run exercises it (every run: the 38 built-in crystals and seeded generated cells incl. degenerate ones, NULL, illegal Zatom, huge Miller indices, all flag triples and invalid flags, both slot modes; values to 1e-12, exact error text, sanitizer abort <=> model ub, non-finite <=> model nf)',
+    'tools/c13_c2lean.py + tools/c2lean.py (translation of the nine numeric functions of src/crystal_diffraction.c from the clang-14 JSON AST of the working tree into XrlC13/Gen/Crystal.lean on every run; Props/C13g.lean proves generated = hand model for every input, so the hand model lean-c13/XrlC13/Hand/CrystalNum.lean is no longer trusted: it is an intermediate)',
+    'the correspondence run (every run: the 38 built-in crystals and seeded generated cells incl. degenerate ones, NULL, illegal Zatom, huge Miller indices, all flag triples and invalid flags, both slot modes; values to 1e-12, exact error text, sanitizer abort <=> model ub, non-finite <=> model nf) ties the COMPILED library to the model in the Float reading: it covers what the translation does not model (IEEE arithmetic, the compiler, the data)',
+    'pointer model of the translation: a Crystal_Struct* is NULL or a record value (nothing is stored through it; a store is UNSUPPORTED), cc->atom[i] is checked against n_atom = length of the atom list, the stack arrays f_re/f_im/f_is_computed[120] are checked for subscript and initialisation',
     'the elemental functions FF_Rayl, Fi, Fii are parameters of the model and of every theorem (their contract is the subject of C02/C03); the run instantiates them with the values the library reports in the same process',
     'IEEE-754 rounding / overflow of the C arithmetic is not modelled (theorems are over the reals; PI, TWOPI, DEGRAD, KEV2ANGST are the decimal literals of include/xraylib.h, so "2 pi" is the header\'s TWOPI); pow(x,2) is read as x*x',
     'Mathlib (module-wise, proofs only)',
@@ -1099,7 +1343,7 @@ TRUSTED = [
 ]
 ASSUMPTIONS = [
     'crystal records are values (cell, stored volume, atom list); the container half of crystal_diffraction.c (arrays, AddCrystal, ReadFile) is property C14',
-    'stored vs recomputed volume of the built-in crystals (written with %f by prdata) is a numeric fact, evaluated on every run and reported in coverage.stored_vs_recomputed_volume (flagged above 1e-6), not a theorem',
+    'stored vs recomputed volume of the built-in crystals is a numeric fact about data/Crystals.dat, not a theorem: evaluated on every run — exactly (every number of a built-in record must be what prdata prints, `%ff`, for the record of the data file, the volume being the formula on the raw cell) and as a relative deviation of the library\'s own recomputation (flagged above 2e-7; the stored value and the cell are floats of six-decimal texts) — and reported in coverage.stored_vs_recomputed_volume',
 ]
 
 CHECK = C13()
